@@ -128,6 +128,10 @@ class G:
             lines.append('let %s = num `title: "D:%s"`;' % (self.clash, self.clash))
         for f, (ps, b) in self.funcs.items():
             lines.append("let %s %s = %s;" % (f, " ".join(ps), render(b)))
+        # top-level declarations are visible in the whole module: a use may come before the declaration it denotes
+        shuffled = r.random() < 0.35
+        if shuffled:
+            r.shuffle(lines)
         # imports usually come first; the language also allows them between or after the declarations
         if uses and r.random() < 0.25:
             for u in uses:
@@ -135,7 +139,11 @@ class G:
         else:
             lines = list(uses) + lines
         for i, e in enumerate(res):
-            lines.append("res /r%d on get -> <%s>;" % (i, render(e)))
+            line = "res /r%d on get -> <%s>;" % (i, render(e))
+            if shuffled and r.random() < 0.5:
+                lines.insert(r.randint(0, len(lines)), line)     # a resource before the declarations it uses
+            else:
+                lines.append(line)
         mods["file:///w/main.oal"] = "\n".join(lines) + "\n"
         return {"mods": mods, "main": "file:///w/main.oal", "features": ["binding"], "ast": None}, res, dup
 
